@@ -6,6 +6,7 @@ import TinsModel.Wire.Icmp.Theorems
 import TinsModel.Wire.Transport.Theorems
 import TinsModel.Wire.App.Theorems
 import TinsModel.Wire.Wifi.Theorems
+import TinsModel.Wire.RegistryFacts
 /-
   Property C02 — serialization is total, size-exact and layers never overwrite each other.
   Generic theorems over chains of any depth; the per-layer obligation `Wire.WritesOnly` is proved class by class
@@ -37,6 +38,47 @@ theorem layers_never_overwrite_at (ls : List LayerSem) (hall : ChainOK ls) (n : 
     ∃ out sub, serialize ls = .ok out ∧ serialize (ls.drop n) = .ok sub ∧
       (out.drop (offsetOf ls n)).take (Wire.sizeOf (ls.drop n)) = sub :=
   serialize_subchain_at ls hall n hn
+
+/-- **parsed_packet_serializes** — C02 for every packet obtained by parsing, with no hypothesis about the layers left: if
+    libtins accepts a byte string (of a length a `uint32_t` can hold) as a stack of layers of any of the seven modelled
+    families, and the stack contains neither capture pseudo-header (PPI, PKTAP: documented as not serializable), then
+    `serialize()` succeeds and returns exactly `size()` bytes = Σ (header + trailer sizes). -/
+theorem parsed_packet_serializes (cls : String) (b : Bytes) (os : List AnyObj) (hb : b.length < 4294967296)
+    (h : parseChain (b.length + 2) cls b = .ok os) (hn : ∀ o ∈ os, NotPseudo o) :
+    ∃ out, serializeObjs os = .ok out ∧ out.length = Wire.sizeOf (sems os) :=
+  Wire.parsed_packet_serializes cls b os hb h hn
+
+/-- … and each layer writes only inside its own header and trailer: the serialization of every sub-chain appears
+    unmodified at the offset given by the header sizes of the layers above it. -/
+theorem parsed_packet_layers_never_overwrite (cls : String) (b : Bytes) (os : List AnyObj) (hb : b.length < 4294967296)
+    (h : parseChain (b.length + 2) cls b = .ok os) (hn : ∀ o ∈ os, NotPseudo o) (n : Nat) (hlen : n ≤ (sems os).length) :
+    ∃ out sub, serializeObjs os = .ok out ∧ serialize ((sems os).drop n) = .ok sub ∧
+      (out.drop (offsetOf (sems os) n)).take (Wire.sizeOf ((sems os).drop n)) = sub :=
+  Wire.parsed_packet_layers_never_overwrite cls b os hb h hn n hlen
+
+/-- **built_packet_serializes** — the same for packets assembled through the public API: every public constructor
+    establishes, and every modelled API call preserves, the class invariant (`<fam>_mk_inv`, `<fam>_apply_inv`); any stack
+    of such layers that are serializable (option areas within what the length fields can express) serializes totally,
+    size-exactly and without any layer overwriting another. -/
+theorem built_packet_serializes (os : List AnyObj) (h : ∀ o ∈ os, registryPreds.Inv o ∧ registryPreds.Ser o) :
+    ∃ out, serializeObjs os = .ok out ∧ out.length = Wire.sizeOf (sems os) :=
+  Wire.built_packet_serializes os h
+
+theorem built_packet_layers_never_overwrite (os : List AnyObj) (h : ∀ o ∈ os, registryPreds.Inv o ∧ registryPreds.Ser o)
+    (n : Nat) (hlen : n ≤ (sems os).length) :
+    ∃ out sub, serializeObjs os = .ok out ∧ serialize ((sems os).drop n) = .ok sub ∧
+      (out.drop (offsetOf (sems os) n)).take (Wire.sizeOf ((sems os).drop n)) = sub :=
+  Wire.built_packet_layers_never_overwrite os h n hlen
+
+/-- non-vacuity of `parsed_packet_serializes`: an accepted Ethernet / IPv4 / UDP packet, its serialization is the input -/
+example : ∃ os, parseChain 64 "EthernetII"
+    ([1, 2, 3, 4, 5, 6, 7, 8, 9, 10, 11, 12, 0x08, 0x00] ++
+     [0x45, 0, 0, 31, 0, 0, 0, 0, 64, 17, 0x66, 0xcc, 10, 0, 0, 1, 10, 0, 0, 2] ++
+     [0, 53, 0, 53, 0, 11, 0xe9, 0x6a, 1, 2, 3]) = .ok os ∧ (∀ o ∈ os, NotPseudo o) ∧ os.length = 4 := by
+  refine ⟨_, rfl, ?_, rfl⟩
+  intro o ho
+  simp only [List.mem_cons, List.mem_nil_iff, or_false] at ho
+  rcases ho with rfl | rfl | rfl | rfl <;> exact ⟨by decide, by decide⟩
 
 /-- non-vacuity: a two-layer chain (8-byte header over a 3-byte payload) meeting the hypotheses -/
 example : ∃ out, serialize
